@@ -466,7 +466,7 @@ def replay_python(recipe, ins, env, cfg, mode, spec=None):
     name, bcm, rcm, which = mode
     spec_vals = None
     if spec is not None:
-        spec_vals = [[float(x) for x in cell[1]] for cell in spec]
+        spec_vals = [[_spec_str(x) for x in cell[1]] for cell in spec]
     return (f"# run as: FUNSOR_USE_TCO={cfg[0]} FUNSOR_TYPECHECK={cfg[1]} /venv/bin/python this_file.py\n"
             + gen_terms.PY_HEADER + "from funsor.domains import Real\n" + SNIPPET_HELPERS
             + (W.USER_SRC if W.has_user(recipe) else "")
@@ -479,7 +479,10 @@ def replay_python(recipe, ins, env, cfg, mode, spec=None):
             + f"SPEC = {spec_vals!r}   # value of the expression at every point of ins (Lean denote), row-major\n"
             + "flat = [list(np.asarray(c, dtype=float).reshape(-1)) for c in got[1]]\n"
             + "print('spec    ', SPEC)\n"
-            + "FAILS = (expected != got) or (SPEC is not None and flat != SPEC)\n")
+            + GATE_SRC
+            + "spec_ok = SPEC is None or (len(flat) == len(SPEC) and all(len(a) == len(b) and all(same_as_spec(x, y) "
+              "for x, y in zip(a, b)) for a, b in zip(flat, SPEC)))\n"
+            + "FAILS = (expected != got) or not spec_ok\n")
 
 
 def py_of(r):
@@ -532,6 +535,39 @@ def replay(ctx, doc):
 # gates
 # ---------------------------------------------------------------------------------------------
 
+# The ONE comparison of an implementation value (a float64) with the spec value (an exact rational or inf/-inf/nan
+# from Lean denote), used by the run's gate and pasted verbatim into every replay snippet.
+GATE_SRC = '''
+from fractions import Fraction as _Fr
+def same_as_spec(x, spec):
+    """x: float; spec: "p/q" | "p" | "inf" | "-inf" | "nan".  Exact when the rational is a float64 value; when it is
+    not exactly representable (|value| beyond 2**53 with low bits set, or a non-dyadic rational) the float must be the
+    spec up to relative 1e-12 — float arithmetic cannot do better, and deferred-vs-immediate stays bit-exact."""
+    x = float(x)
+    if spec in ("inf", "-inf", "nan"):
+        return (x != x) if spec == "nan" else x == float(spec)
+    if x != x or x in (float("inf"), float("-inf")):
+        return False
+    y = _Fr(spec)
+    if _Fr(x) == y:
+        return True
+    try:
+        representable = _Fr(float(y)) == y
+    except OverflowError:
+        representable = False
+    if representable:
+        return False
+    return abs(_Fr(x) - y) <= _Fr(1, 10 ** 12) * max(1, abs(y))
+'''
+exec(GATE_SRC)
+
+
+def _spec_str(y):
+    if isinstance(y, float):
+        return "nan" if y != y else ("inf" if y > 0 else "-inf")
+    return str(y)
+
+
 def table_matches_model(tab, model):
     """worker canonical table vs parse_table(driver answer)."""
     if len(tab["vals"]) != len(model):
@@ -542,8 +578,7 @@ def table_matches_model(tab, model):
         if list(m[0]) != list(tab["shape"]) or len(m[1]) != len(cell):
             return False
         for x, y in zip(cell, m[1]):
-            xv = float(x) if x in ("inf", "-inf", "nan") else Fraction(x)
-            if not futil.same_num(xv, y):
+            if not same_as_spec(float(x) if x in ("inf", "-inf", "nan") else float(Fraction(x)), _spec_str(y)):
                 return False
     return True
 
